@@ -229,7 +229,7 @@ ADDENDA = {
     "C34": " Also: the caller's resolvers are handed to every instruction unchanged, or consulted without a short-circuiting adaptor: every placeholder is asked.",
     "C14": " Also: the value returned for a parameterised gate is the table function's result for every angle (no special-cased angle).",
     "C16": " Also: has_signature is an equality of the whole signature (no is_some / len / prefix comparisons of a component).",
-    "C28": " Also: exactly JUMP, JUMP-WHEN, JUMP-UNLESS and HALT (and LABEL, which starts the next one) close a block.",
+    "C28": " Also: exactly JUMP, JUMP-WHEN, JUMP-UNLESS and HALT (and LABEL, which starts the next one) close a block. The offset increment has a literal + 1 exactly at the sites that close a block on a terminator instruction.",
     "C22": " Also: the BlockStart edge of a classical instruction is decided by whether a memory edge was actually drawn into it (flag cleared under the self-edge guard, or computed from that comparison).",
     "C02": " Also: a present optional field is printed whatever it contains (no Some-discarding adaptor, emission controlled only by the Option being Some); a writer that separates elements with commas has a parser accepting COMMA.",
     "C03": " Also: whole real parts written as bare digit strings (trim_floats below 10^break) fit the lexer's integer token width; the Prefix arm never prints its operand bare and the Infix arm prints both operands through the grouping printer; the identifier parser tries `name[index]` before the keyword table while MemoryReference always prints its brackets.",
